@@ -30,3 +30,48 @@ package meta
 //@   property C43
 //@   ensures [recorded_mode_is_the_new_one_on_success] err == nil ==> db.mode == m
 //@   ensures [recorded_mode_unchanged_on_failure] err != nil ==> db.mode == old(db.mode)
+
+// ---- C02: counter bookkeeping kernel.
+// * a diff is applied component by component to the counter of its own kind;
+// * a counter update is saturating at zero and otherwise exact (no wrap below zero);
+// * an object that already carries a garbage mark is not counted as new garbage again and its
+//   payload is not subtracted again;
+// * the diff computed while removing an object's metadata is what delete reports, also for an
+//   object that was not physically stored.
+
+//@ callrule c02_diff_component_goes_to_its_own_counter in applyDiff
+//@   property C02
+//@   callee metabase.updateCounter
+//@   pureeffect
+//@   requires [kind_and_amount_match] (a1 == phyCounter ==> a2 == int64(diff.Phy)) && (a1 == rootCounter ==> a2 == int64(diff.Root)) && (a1 == tsCounter ==> a2 == int64(diff.TS)) && (a1 == lockCounter ==> a2 == int64(diff.Lock)) && (a1 == linkCounter ==> a2 == int64(diff.Link)) && (a1 == gcCounter ==> a2 == int64(diff.GC)) && (a1 == payloadCounter ==> a2 == diff.Payload)
+//@   requires [only_the_seven_kinds] a1 == phyCounter || a1 == rootCounter || a1 == tsCounter || a1 == lockCounter || a1 == linkCounter || a1 == gcCounter || a1 == payloadCounter
+
+//@ func (*CountersDiff).add
+//@   property C02
+//@   ensures [componentwise_sum] c.Phy == old(c.Phy) + c2.Phy && c.Root == old(c.Root) + c2.Root && c.TS == old(c.TS) + c2.TS && c.Lock == old(c.Lock) + c2.Lock && c.Link == old(c.Link) + c2.Link && c.GC == old(c.GC) + c2.GC && c.Payload == old(c.Payload) + c2.Payload
+
+//@ ghost pred garbKeyPresent() bool
+//@ callrule c02_garbage_key_lookup in markGarbageInContainer
+//@   property C02
+//@   callee bytes.Equal
+//@   pureeffect
+//@   defines result == garbKeyPresent()
+//@ callrule c02_mark_collaborators in markGarbageInContainer
+//@   property C02
+//@   callee (*bbolt.Cursor).*, (*bbolt.Bucket).*, metabase.get, metabase.inGarbage, metabase.getObjAttribute, metabase.mkGarbageKey, (*oid.Address).*, (*object.Object).*, (object.Object).*
+//@   pureeffect
+//@ func markGarbageInContainer
+//@   property C02
+//@   loop 1 iteration [already_marked_object_is_not_counted_again] garbKeyPresent() ==> diff.NewGarbage == old(diff.NewGarbage) && diff.PayloadDiff == old(diff.PayloadDiff)
+
+//@ ghost pred metaDiffGC() int
+//@ ghost pred metaDiffPhy() int
+//@ ghost pred metaDiffPayload() int64
+//@ callrule c02_metadata_removal_diff in (*DB).delete
+//@   property C02
+//@   callee metabase.deleteMetadata
+//@   pureeffect
+//@   defines res0.GC == metaDiffGC() && res0.Phy == metaDiffPhy() && res0.Payload == metaDiffPayload()
+//@ func (*DB).delete
+//@   property C02
+//@   ensures [reports_the_diff_of_the_metadata_removal] err == nil ==> res0.GC == metaDiffGC() && res0.Phy == metaDiffPhy() && res0.Payload == metaDiffPayload()
